@@ -560,6 +560,7 @@ static int build_chunks(pchunk *out, hx_buf *stream, hx_buf *msgs, int N, const 
     for (int i = 0; i < N; i++) {
         size_t c = 0;
         if (inner[i] == 1) c = start[i] + (l1[i] - start[i]) / 2; else if (inner[i] == 2) c = l1[i]; else if (inner[i] == 3) c = end[i] - 1;
+        else if (inner[i] == 4) { const uint8_t *h = memmem(msgs[i].p, msgs[i].n, "\r\n\r\n", 4); c = h ? start[i] + (size_t) (h - msgs[i].p) + 4 : 0; }      /* between header block and body */
         if (c > start[i] && c < end[i]) cuts[nc++] = c;
         if (i < N - 1 && bcut[i]) cuts[nc++] = end[i];
     }
@@ -589,8 +590,9 @@ static void mode_pair(int argc, char **argv) {
     long combo = 0;
     static hx_buf SQ, SR;
     for (int N = 1; N <= maxN; N++) {
-        int nqf = 3, nsf = 2;
-        int ncut = N == 4 ? 1 : (N <= 2 || thorough) ? 4 : 2;          /* N=3 quick: whole or mid-line only; N=4: whole messages */
+        /* N <= 2: also a request that announces its body with Expect: 100-continue, a refusing final answer (404), and a cut between header block and body */
+        int nqf = N <= 2 && !PAIR_FREED ? 4 : 3, nsf = N <= 2 && !PAIR_FREED ? 3 : 2;
+        int ncut = N == 4 ? 1 : N <= 2 ? (PAIR_FREED ? 4 : 5) : thorough ? 4 : 2;          /* N=3 quick: whole or mid-line only; N=4: whole messages */
         long nframe = 1; for (int i = 0; i < N; i++) nframe *= nqf * nsf;
         if (N == 3) nframe = thorough ? 12 : 3;            /* fixed framing mixes for N=3 */
         if (N == 4) nframe = 2;
@@ -602,9 +604,13 @@ static void mode_pair(int argc, char **argv) {
                 hb_reset(&mq[i]); hb_reset(&mr[i]);
                 char idb[16]; snprintf(idb, sizeof idb, "id-%d", i + 1); int z[1] = { (int) strlen(idb) };
                 if (qf[i] == 0) hb_printf(&mq[i], "GET /id-%d HTTP/1.1\r\nHost: h\r\n\r\n", i + 1);
-                else if (qf[i] == 1) hb_printf(&mq[i], "POST /id-%d HTTP/1.1\r\nHost: h\r\nContent-Length: %d\r\n\r\n%s", i + 1, z[0], idb);
+                /* N <= 2: the Content-Length request bodies look like a request themselves (they are body bytes, whatever the response side is doing) */
+                else if (qf[i] == 1 && (N > 2 || PAIR_FREED)) hb_printf(&mq[i], "POST /id-%d HTTP/1.1\r\nHost: h\r\nContent-Length: %d\r\n\r\n%s", i + 1, z[0], idb);
+                else if (qf[i] == 1) hb_printf(&mq[i], "POST /id-%d HTTP/1.1\r\nHost: h\r\nContent-Length: 22\r\n\r\nGET /id-9 HTTP/1.1\r\n\r\n", i + 1);
+                else if (qf[i] == 3) hb_printf(&mq[i], "POST /id-%d HTTP/1.1\r\nHost: h\r\nExpect: 100-continue\r\nContent-Length: 22\r\n\r\nGET /id-9 HTTP/1.1\r\n\r\n", i + 1);
                 else { hb_printf(&mq[i], "POST /id-%d HTTP/1.1\r\nHost: h\r\nTransfer-Encoding: chunked\r\n\r\n", i + 1); gx_chunked(&mq[i], (const uint8_t *) idb, (size_t) z[0], z, 1, 0, 0); }
                 if (sf[i] == 0) hb_printf(&mr[i], "HTTP/1.1 200 OK\r\nX-Id: %d\r\nContent-Length: %d\r\n\r\n%s", i + 1, z[0], idb);
+                else if (sf[i] == 2) hb_printf(&mr[i], "HTTP/1.1 404 NF\r\nX-Id: %d\r\nContent-Length: %d\r\n\r\n%s", i + 1, z[0], idb);
                 else { hb_printf(&mr[i], "HTTP/1.1 200 OK\r\nX-Id: %d\r\nTransfer-Encoding: chunked\r\n\r\n", i + 1); gx_chunked(&mr[i], (const uint8_t *) idb, (size_t) z[0], z, 1, 0, 0); }
             }
             /* chunkings: inner cut per message (ncut choices) x boundary cut per inner boundary (2 choices), both directions */
